@@ -86,12 +86,12 @@ def obligations(tier: str, seed: int) -> tuple[list[Obl], dict]:
             for pretty in (False, True):
                 add(f[0], f, "string", 2, 2, pretty, 300)
                 add(f[0], f, "raw", 2, 2, pretty, 300)
-                add(f[0], f, "comment", 1, 2, pretty, 600, pt=30.0)
-                add(f[0], f, "comment", 3, 3, pretty, 900, pt=30.0, alphabet="markers")
-            add(f[0], f, "ident", 2, 2, False, 600)
+                add(f[0], f, "comment", 1, 2, pretty, 400, pt=30.0)
+                add(f[0], f, "comment", 3, 3, pretty, 400, pt=30.0, alphabet="markers")
+            add(f[0], f, "ident", 2, 2, False, 300)
             if _has_backslash_escapes(f[0]):
-                add(f[0], f, "string", 3, 3, False, 1200)
-        add("", fams[0], "comment", 4, 4, False, 1800, pt=30.0, alphabet="markers")
+                add(f[0], f, "string", 3, 3, False, 600)
+        add("", fams[0], "comment", 4, 4, False, 900, pt=30.0, alphabet="markers")
     bounds = {
         "value": "every Unicode string v with minlen <= len(v) <= maxlen (per obligation, see samples[*].desc.len)",
         "groups": len(groups), "families": len(fams),
